@@ -22,6 +22,10 @@ CLAIMED = {
    text="Every notification must be one group of one route of the reference router, complete with respect to members eligible during the whole flush window; group keys must be a stable function of (matcher path, group labels); GET /alerts/groups must show the model's partition; new and recreated groups must wait group_wait."),
  "C09": dict(category="exploration", ref="5 (C09)", technique=SIM + "; 2-4 real instances whose silence broadcasts are recorded and re-delivered with loss/dup/delay/reorder/batching; crafted versions; full-state exchanges",
    text="Per-merge safety (never newer->older, nothing past its retention accepted, newer unexpired delivered version wins, no fabricated content, re-merging known data changes nothing and broadcasts nothing, accepted changes are re-broadcast) on every replica, and convergence after two all-pairs full-state exchanges: every replica holds the newest accepted version of every id still within retention, and its Silencer agrees with the direct evaluation."),
+ "C10": dict(category="exploration", ref="5 (C10)", technique=SIM + "; crafted notification-log entries through Log.Merge in independent orders, local Log calls, GC, restarts; reference log stepped alongside",
+   text="After every delivery, local Log call (also against an entry stamped in the local future), GC, restart and full-state exchange, Log.Query of every key on every replica is compared with a reference log (newest unexpired timestamp wins, expired never accepted, receiver data unchanged); the broadcast rule (nothing for known/older/expired data, re-gossip of accepted entries) is checked per merge; after two all-pairs exchanges all replicas hold the newest unexpired entry of every key."),
+ "C11": dict(category="fault_enumeration", ref="5 (C11)", technique="deterministic simulation with fault enumeration: real instance on a simulated disk (journalled, power-loss model), crash before every file-system operation of maintenance and shutdown snapshots x every power-loss outcome, restart and compare; loader fed every prefix and bit-flip corruptions",
+   text="For each generated store content, the snapshot pair (silences, notification log) is crashed before each of its mutating file-system operations (and right after completion) with each power-loss outcome (unsynced data lost, kept, torn); the restarted real instance must start and hold, per store, exactly the last completed or the in-progress snapshot. Snapshot -> load round trip and all prefixes of the snapshot files are checked against the originals. Enumeration over crash points is complete per content; contents are sampled."),
  "C12": dict(category="exploration", ref="5 (C12)", technique=SIM + "; lifecycle state machine stepped with the requests actually sent, compared with GET /silences after every call",
    text="Sequences of create/edit/expire/GC/query over 1-4 silences placed around start, end and end+retention (+-1 ms, +-1 s), with invalid inputs, unknown ids, operator-only matcher edits, oversize replacements and optional count/size limits; ids, times, matchers, comment/creator, state-by-time, once-expired-never-active, presence until end+retention and absence after a GC past it are checked after every call."),
  "C13": dict(category="exploration", ref="5 (C13)", technique=SIM + "; contract model of ingestion (defaulting, overlap merge, visibility) carried as a set of allowed stored versions",
